@@ -44,7 +44,7 @@ func (o *obs) sample(x *vsched.Exec) {
 	if o.env == nil || o.env.Ch == nil {
 		return
 	}
-	_, _, ql, qc := netty.VerifChannelState(o.env.Ch)
+	_, ql, qc, _ := hlib.ChanState(o.env.Ch)
 	if qc > 0 && ql == qc {
 		if n := len(o.full); n == 0 || o.full[n-1] != x.Steps() {
 			o.full = append(o.full, x.Steps())
